@@ -12,7 +12,8 @@ RULE = ('enumeration of the basis for d=2..8 x tensor_n in {1,2} x with_I (Hermi
         'hypothesis: d 2..8, matrix kind (complex non-Hermitian/Hermitian/real/diagonal/zero/density), batch shape (),(k,),(k,l), backend '
         'numpy/torch, precision 32/64; oracle: explicit expansion v_i = Tr(G_i A)/2 and A = sum v_i G_i with the textbook basis built in vf/ref.py. '
         'Non-trivial = d>=5 or non-Hermitian or batch ndim>=2 or float32 or torch; distinct = (sub, d, kind, batch shape, backend, precision).'
-        ' Inputs also in other memory layouts (numpy: Fortran/strided/read-only; torch: non-contiguous tensors); second-call clause for all_gellmann_matrix / gellmann_matrix.')
+        ' Inputs also in other memory layouts (numpy: Fortran/strided/read-only; torch: non-contiguous tensors); second-call clause for all_gellmann_matrix / gellmann_matrix.'
+        ' Norm for torch input as handed over; states at distance 1e-4..1e-10 from the maximally mixed state (relative accuracy).')
 ASSUMPTIONS = ['float64 identities compared at 1e-10*max(1,|A|), float32 inputs at 2e-4*max(1,|A|)',
                'torch results for float32 inputs may be promoted to complex128 (not a defect, DESIGN section 5)']
 
